@@ -43,7 +43,10 @@ CHAINSTEPS = LVALFORMS + ["y = x + b", "y = b + x", "x += b", "x += x", "y = x",
                           "y = capitalize(x)", "y = x[b..c]", 'y = sprintf("%s|%O", x, x)', "y = implode(({ x, x }), d)", "y = explode(x, d)",
                           "y = replace_string(x, d, d + d)", "y = copy(x)", "y = x - b", "y = ({ x }) + ({ y })", "x[b..c] = y", "y = x + x",
                           "y = set_bit(x, b)", "y = x * 2", "y = x & y", "y = x | y", "y += x", "x = x[b..]", "y = strlen(x)", "y = sizeof(x)",
-                          "z = x", "y = z + b", "z += d"]
+                          "z = x", "y = z + b", "z += d",
+                          # range assignment from a temporary (reference count 1) holding refcounted elements, same and different lengths
+                          'x[0..1] = ({ ({ b }), "s" + b })', "x[b..c] = ({ d, y })", "x[1..2] = ({ ([ b : c ]), ({ d }) })", "x[0..0] = ({ ({ d, d }) })",
+                          'x[b..c] = ({ "t" + c, ({ b }), ([ ]) })', "x[0..1] = y[0..1]", "x[0..2] = map(({ 1, 2, 3 }), (: ({ $1 }) :))"]
 _BIG = [i for i, v in enumerate(genlpc.ALL_VALUES) if v[0] in ("s_65535", "s_65536", "s_70000", "s_256", "a_1000", "a_max", "a_8", "s_abc", "m_100", "b_1000")]
 _SMALLINT = [i for i, v in enumerate(genlpc.ALL_VALUES) if v[0] in ("i0", "i1", "i2", "i7", "i255", "i65535")]
 _FILL = [i for i, v in enumerate(genlpc.ALL_VALUES) if v[0] in ("i7", "i255", "s_a", "s_abc", "s_empty", "a_1", "a_mixed", "s_256")]
